@@ -60,7 +60,22 @@ async def _process_tick(self: Any, tick: Any) -> Any:
     if _H is not None:
         _H.pre_state = self.state  # state object before the reducer runs (never mutated afterwards)
         _H.pre_runner = self
-    return await _orig_process_tick(self, tick)
+    res = await _orig_process_tick(self, tick)
+    h = _H
+    if h is not None and h.busy_ticks_left > 0 and self.scheduled_wakeups and res is None:
+        # environment choice: processing this tick kept the loop busy (slow persistence, GC pause, CPU-bound callback)
+        # until after the next wake-up the run has scheduled for itself
+        import time as _t
+
+        due = self.scheduled_wakeups[0][0]
+        if due > _t.time() - 1e-9:
+            c = h.ex.choose(2, "busy", ["tick takes no time", "tick is slow: the clock passes the next scheduled wake-up"])
+            if c == 1:
+                h.busy_ticks_left -= 1
+                h.loop.advance_busy(due - _t.time() + 0.25)
+                h.busy_until = _t.time()
+                h.trace.append(f"busy_tick:{type(tick).__name__}")
+    return res
 
 
 _cl._ControlLoopRunner._process_tick = _process_tick  # type: ignore[method-assign]
@@ -177,6 +192,8 @@ class Harness:
         self.stream_error: Any = None
         self.on_publish: list[Callable[..., None]] = []
         self.on_tick: list[Callable[..., None]] = []
+        self.busy_ticks_left = 0  # RunConfig.busy_ticks: how many ticks may keep the loop busy past the next wake-up
+        self.busy_until = 0.0
         self.invocations: list[Invocation] = []
         self.live: dict[str, list[Invocation]] = {}
         self.max_live: dict[str, int] = {}
@@ -321,6 +338,7 @@ class RunConfig:
     on_quiescent: list[Callable[["Harness"], None]] = field(default_factory=list)
     state_digest: Callable[["Harness"], str] | None = None
     time_filter: Callable[["Harness"], bool] | None = None  # may veto the time action
+    busy_ticks: int = 0  # how many ticks of one execution may keep the loop busy until after the next scheduled wake-up
 
 
 class EngineExec:
@@ -337,6 +355,7 @@ class EngineExec:
         self.cfg = cfg or RunConfig()
         self.loop = loop or VLoop()
         self.h = Harness(ex, self.loop)
+        self.h.busy_ticks_left = self.cfg.busy_ticks
         self.stuck = False
         self.capped = False
 
